@@ -119,7 +119,7 @@ func (in *Interp) force(v Value) *Iface {
 }
 
 func (in *Interp) child(parent *Lazy, id string) *Lazy {
-	return &Lazy{ID: id, Tags: parent.Tags &^ TMissing, Depth: parent.Depth - 1, Keys: parent.Keys, MaxLen: parent.MaxLen}
+	return &Lazy{ID: id, Tags: childTags(parent.Tags), Depth: parent.Depth - 1, Keys: parent.Keys, MaxLen: parent.MaxLen}
 }
 
 func (in *Interp) materialize(l *Lazy, tag int) *Iface {
@@ -204,7 +204,12 @@ func (in *Interp) mkDoc(l *Lazy) SliceV {
 		k := in.chooseN(fmt.Sprintf("%s.k%d", l.ID, i), len(rest))
 		key := rest[k]
 		rest = append(rest[:k], rest[k+1:]...)
-		d[i] = Struct{StrV(key), in.child(l, l.ID+"."+key)}
+		c := in.child(l, l.ID+"."+key)
+		if l.topDoc {
+			// fields of a top-level vf.Doc use the top-level tag mask
+			c.Tags = l.Tags &^ TMissing
+		}
+		d[i] = Struct{StrV(key), c}
 	}
 	if n == 0 {
 		return SliceV{D: []Value{}}
@@ -222,6 +227,9 @@ func splitCSV(s string) []string {
 func (in *Interp) forceCopy(c *Lazy, src *Iface) {
 	if c.Via != nil {
 		r := in.callValue(nil, c.Via, []Value{src}, 0)
+		if t, ok := r.(Tuple); ok {
+			r = t[0]
+		}
 		c.Forced = in.force(r)
 	} else {
 		c.Forced = in.deepCopy(src).(*Iface)
@@ -248,4 +256,19 @@ func (in *Interp) lazyCopy(l *Lazy, via *Closure) Value {
 	c := &Lazy{ID: l.ID + "'", Tags: l.Tags, Depth: l.Depth, Keys: l.Keys, MaxLen: l.MaxLen, CopyOf: l, Via: via}
 	l.deps = append(l.deps, c)
 	return c
+}
+
+// childTags: bits 16..30 of a tag mask, when set, are the tag mask of nested values (vf.Child).
+func childTags(tags uint32) uint32 {
+	if hi := tags >> 16; hi != 0 {
+		return (hi | hi<<16) &^ TMissing
+	}
+	return tags &^ TMissing
+}
+
+func lazyRoot(l *Lazy) *Lazy {
+	for l.CopyOf != nil && l.Forced == nil {
+		l = l.CopyOf
+	}
+	return l
 }
